@@ -182,6 +182,26 @@ def check(case):
                             bracket(hc.get, "probe-%d-%d" % (si, kk))          # errors are expected here and not judged
                     for j in down:
                         w.nodes[j].down = None
+                fr = (case.get("fail_refresh") or {}).get(str(si))
+                if fr:
+                    # one refresh fails (the endpoint answers with an error line, or is unreachable): it raises; whatever it left
+                    # behind, the next successful refresh makes the rotation the advertised list again and nothing stale stays open
+                    labels.append("a-refresh-failed")
+                    if fr == "down":
+                        w.cfg.down = "refused"
+                    else:
+                        w.cfg.cluster_error = fr.encode()
+                    r = bracket(hc.reconfigure_nodes)
+                    w.cfg.down = None
+                    w.cfg.cluster_error = None
+                    if r[0] == "ok":
+                        raise Violation(["failed-refresh-succeeds"], "reconfigure_nodes returned although the endpoint answered %r (step %d): %s" % (fr, si, desc))
+                    if not isinstance(r[1], (MemcacheError, OSError)):
+                        raise Violation(["failed-refresh-internal-error", type(r[1]).__name__], "reconfigure_nodes raised %r when the endpoint answered %r: %s" % (r[1], fr, desc))
+                    for kk in range(6):
+                        q = bracket(hc.get, "during-%d-%d" % (si, kk))
+                        if q[0] == "exc" and not isinstance(q[1], (MemcacheError, OSError)):
+                            raise Violation(["after-failed-refresh-internal-error", type(q[1]).__name__], "after the failed refresh get raised %r: %s" % (q[1], desc))
                 w.advertise(vbase + si, idxs)
                 r = bracket(hc.reconfigure_nodes)
                 if r[0] == "exc":
@@ -281,6 +301,12 @@ def fixed_history_cases(tier, seed):
         for pooling in (False, True):
             for vpc in (True, False):
                 yield {"steps": h, "use_vpc": vpc, "pooling": pooling, "nkeys": 60, "client_class": "tunnel"}
+    # a refresh that fails, then one that succeeds with fewer / other nodes
+    for fr in ("ERROR", "SERVER_ERROR out of memory", "down"):
+        for h in ([[0, 1, 2], [0, 1]], [[0, 1, 2], [3, 4]], [[0, 1], [0, 1], [1]], [[0], [0, 1, 2]]):
+            for vpc in (True, False):
+                for pooling in (False, True):
+                    yield {"steps": h, "use_vpc": vpc, "pooling": pooling, "nkeys": 60, "fail_refresh": {"1": fr} if len(h) == 2 else {"1": fr, "2": fr}}
     # other layouts of the configuration payload
     for layout in ("crlf", "huge-version"):
         for h in ([[0, 1, 2], [0]], [[0], [0, 1, 2, 3]], [[4, 5], [5, 4]]):
@@ -479,7 +505,8 @@ def history_strategy(tier):
     fb = st.dictionaries(st.sampled_from(["1", "2", "3"]), st.lists(st.integers(0, 7), min_size=1, max_size=3, unique=True), max_size=2)
     return st.fixed_dictionaries({"steps": st.lists(nodes, min_size=1, max_size=6), "use_vpc": st.sampled_from([True, False, 1, 0]), "pooling": st.booleans(),
                                   "nkeys": st.sampled_from([20, 60, 200]), "schedule": sched, "fail_before": fb,
-                                  "client_class": st.sampled_from([None, None, "tunnel"]), "layout": st.sampled_from([None, None, "crlf", "huge-version"]), "app_add": st.one_of(st.none(), st.dictionaries(st.sampled_from(["1", "2", "3"]), st.lists(st.integers(0, 7), min_size=1, max_size=2), max_size=2)),
+                                  "client_class": st.sampled_from([None, None, "tunnel"]), "layout": st.sampled_from([None, None, "crlf", "huge-version"]),
+                                  "fail_refresh": st.one_of(st.none(), st.dictionaries(st.sampled_from(["1", "2", "3"]), st.sampled_from(["ERROR", "SERVER_ERROR busy", "down"]), max_size=2)), "app_add": st.one_of(st.none(), st.dictionaries(st.sampled_from(["1", "2", "3"]), st.lists(st.integers(0, 7), min_size=1, max_size=2), max_size=2)),
                                   "retry_attempts": st.sampled_from([0, 1, 2]), "version_base": st.sampled_from([1, 1, 8, 9, 98, 99, 65535])})
 
 
